@@ -197,6 +197,13 @@ class SRot:
     def __init__(self, q):
         self.q = as_arr(q)
 
+    @staticmethod
+    def identity(num=None):
+        """Rotation.identity(): a single unit rotation; identity(n): a sequence of n unit rotations"""
+        if num is None:
+            return SRot(Arr(None, lambda i: RID, "quat"))
+        return SRot(Arr(tz(num), lambda i: RID, "quat"))
+
     def as_quat(self):
         return self.q.snapshot()
 
@@ -290,6 +297,13 @@ class NPs:
         if arr.length is not None and len(shape) == 2 and shape[0] == -1 and shape[1] == _WIDTH[arr.kind]:
             return arr
         raise Unsupported("np.reshape")
+
+    @staticmethod
+    def size(a):
+        """number of scalar entries"""
+        a = as_arr(a)
+        w = _WIDTH[a.kind]
+        return w if a.length is None else SymInt(a.length * w)
 
     @staticmethod
     def allclose(a, b, rtol=1e-5, atol=1e-8):
